@@ -19,7 +19,7 @@ vars == <<g, inp, cfg, phase, seen>>
 
 NoSub  == [variety |-> "", gain |-> NONE, voa |-> NONE, dp |-> NONE]
 NewAmp(name) == [name |-> name, type |-> "Edfa", succ |-> {}, pred |-> {}, len |-> 0, coef |-> 0, variety |-> "",
-                 conIn |-> NONE, conOut |-> NONE, attIn |-> NONE, loss |-> 0, sub |-> <<NoSub>>, origin |-> "", coefTab |-> <<>>]
+                 conIn |-> NONE, conOut |-> NONE, attIn |-> NONE, loss |-> 0, sub |-> <<NoSub>>, origin |-> "", coefTab |-> <<>>, opt |-> ""]
 
 -----------------------------------------------------------------------------
 (* calculate_new_length on integer metres: number of equal spans for a fibre of length L.                      *)
